@@ -276,7 +276,16 @@ def execute_gen(spec, workdir):
     with warnings.catch_warnings():
         warnings.simplefilter("ignore")
         try:
-            parts.append(_digest_obj(iodata.load_one(path, fmt=fmt, **kwargs)))
+            obj = iodata.load_one(path, fmt=fmt, **kwargs)
+            parts.append(_digest_obj(obj))
+            if hasattr(iodata.api.FORMAT_MODULES[mod.FORMAT], "dump_one"):
+                # the conversion of the file to its own format: bytes written
+                out = os.path.join(workdir, "rewritten_" + os.path.basename(path))
+                try:
+                    iodata.dump_one(obj, out, fmt=mod.FORMAT, allow_changes=True)
+                    parts.append("REWRITE:" + _file_digest(out))
+                except Exception as exc:
+                    parts.append(f"REWRITE-EXC:{type(exc).__name__}:" + str(exc).replace(workdir, "<WORKDIR>").replace("\n", "\\n"))
         except Exception as exc:
             parts.append(f"EXC:{type(exc).__name__}:" + str(exc).replace(workdir, "<WORKDIR>").replace("\n", "\\n"))
         if hasattr(iodata.api.FORMAT_MODULES[mod.FORMAT], "load_many"):
@@ -291,7 +300,8 @@ def execute_gen(spec, workdir):
 def baseline_gen(specs, root):
     out = {}
     procs = []
-    env = dict(os.environ, VF_REPO=bootstrap.REPO, PYTHONHASHSEED="0")
+    # the fresh interpreters run under ANOTHER string-hash seed than this one (results must not depend on set / dict iteration order)
+    env = dict(os.environ, VF_REPO=bootstrap.REPO, PYTHONHASHSEED="1" if os.environ.get("PYTHONHASHSEED", "0") != "1" else "2")
     for k, spec in enumerate(specs):
         wd = os.path.join(root, f"gbase{k}")
         p = subprocess.Popen([sys.executable, "-m", "vf.checks.c16", "--exec-gen", json.dumps(spec), wd], cwd=bootstrap.VERIF_ROOT, env=env,
@@ -449,7 +459,7 @@ def baseline(spec_ids, root):
     """Digest of each call alone in a fresh interpreter."""
     out = {}
     procs = []
-    env = dict(os.environ, VF_REPO=bootstrap.REPO, PYTHONHASHSEED="0")
+    env = dict(os.environ, VF_REPO=bootstrap.REPO, PYTHONHASHSEED="1" if os.environ.get("PYTHONHASHSEED", "0") != "1" else "2")
     for sid in spec_ids:
         wd = os.path.join(root, f"base{sid}")
         p = subprocess.Popen([sys.executable, "-m", "vf.checks.c16", "--exec", str(sid), wd], cwd=bootstrap.VERIF_ROOT, env=env,
